@@ -19,6 +19,11 @@ package obfs4
 //@   requires data != nil && regManager != nil
 // (the try-again sentinel exists before the call: it is not an error value made during it)
 //@   requires !fresh(transports.ErrTryAgain)
+// C02 (obfs4): whatever is returned as the matched registration is one of the candidates - a valid registration of
+// this connection's phantom filed under an obfs4 identifier - and the server handshake is started only when that
+// candidate's mark (an HMAC keyed with its node id and public key) was found in the client's bytes
+//@   ensures @C02: result0 != nil ==> (exists k string :: k in validRegs(regManager, phantom) && len(k) == 52 && result0 == validRegs(regManager, phantom)[k])
+//@   atcall PrependToConn before: assert @C02: pos != -1 && arg0 == c && unboxptr(arg1, *bytes.Buffer) == data
 //@   ensures @C04: result2 == nil ==> typeis(result1, *deadlineConn) && unboxptr(result1, *deadlineConn) != nil && unboxptr(result1, *deadlineConn).under == c
 //@   ensures @C03: old(len(bufStr(data))) < ClientMinHandshakeLength ==> result2 == transports.ErrTryAgain && result0 == nil && result1 == nil && bufStr(data) == old(bufStr(data))
 // C03: whenever no registration is matched - whatever the bytes - nothing was consumed from the buffer and the
@@ -36,6 +41,10 @@ package obfs4
 //@ loop 1:
 //@   invariant data != nil && regManager != nil && old(len(bufStr(data))) >= ClientMinHandshakeLength && !defined(swept)
 //@   invariant bufStr(data) == old(bufStr(data)) && nwrites(c) == old(nwrites(c)) && closed(c) == old(closed(c))
+//@   invariant len(ranged) == 0 || fresh(ranged)
+//@   invariant forall i int :: 0 <= i && i < len(ranged) ==> (exists k string :: k in validRegs(regManager, phantom) && len(k) == 52 && ranged[i] == validRegs(regManager, phantom)[k])
+// (what an iteration can change that outlives it: the keys cached in the candidate and the position of its reader)
+//@   modifies regKeys, drawn
 
 //@ func (c *deadlineConn) SetDeadline(t time.Time) error
 //@   requires c != nil && c.under != nil
@@ -76,6 +85,7 @@ package obfs4
 //@ func getObfs4Registrations(regManager transports.RegManager, darkDecoyAddr net.IP) []transports.Registration
 //@   requires regManager != nil
 //@   ensures @C02: forall i int :: 0 <= i && i < len(result) ==> (exists k string :: k in validRegs(regManager, darkDecoyAddr) && len(k) == 52 && result[i] == validRegs(regManager, darkDecoyAddr)[k])
+//@   ensures @C02: len(result) == 0 || fresh(result)
 //@   assigns nothing
 //@ loop 1:
 //@   invariant regManager != nil && (cap(regs) == 0 || fresh(regs))
